@@ -5,6 +5,7 @@ import (
 	"bytes"
 	"fmt"
 	"io"
+	"strings"
 
 	"github.com/intel/fastgo/verif/env"
 	"github.com/intel/fastgo/verif/mc"
@@ -51,6 +52,9 @@ func c15Harness(cfg *Cfg) func(x *mc.Exec) {
 	for _, c := range containerCorpus(cfg.Seed, true) {
 		streams = append(streams, c15stream{c.name, c.kind, c.bytes, c.payload, len(c.bytes) > 2000})
 	}
+	wfS, wfName, wfAt := g.windowFillStreamAt(65536, 0, 2, 258, 17, 1)
+	wfP, _ := stdFlate(wfS)
+	streams = append(streams, c15stream{"flate:" + wfName, RK{Kind: "flate"}, wfS, wfP, true})
 	bufios := []int{0, 16, 4096}
 	chunks := []int{0, 3}
 	pols := []env.ReadPolicy{env.PolicyAll, env.Policy7, env.Policy1}
@@ -64,6 +68,11 @@ func c15Harness(cfg *Cfg) func(x *mc.Exec) {
 			}
 		} else {
 			ks = []int{0, 1, 9, 10, 11, 18, 100, 4095, 4096, 4097, 8192, n / 2, n - 9, n - 8, n - 4, n - 1, n}
+			if strings.HasPrefix(st.name, "flate:window-fill") {
+				for k := wfAt - 4; k < wfAt+40; k++ {
+					ks = append(ks, k) // every position around the symbols that straddle the full output window
+				}
+			}
 		}
 		k := ks[x.Choose(len(ks), "fail-after")]
 		withData := x.Choose(2, "error-with-data") == 1
